@@ -44,7 +44,9 @@ func Spec_PrepareCumulatedWeightsMap(
 	for _, c := range params.Criteria {
 		weights[c.Id] = 0
 	}
-	for _, a := range params.ConsideredAlternatives {
+	// C04: summed in the order of the alternatives' ids, so that the importance of a criterion does not depend on the
+	// order the alternatives are listed in (a floating point sum depends on the order of its terms)
+	for _, a := range *Spec_SortAlternativesByName(&params.ConsideredAlternatives) {
 		for crit, v := range a.Criteria {
 			// C15/C07: only declared criteria have an importance; extra values of an alternative are ignored
 			if w, declared := weights[crit]; declared {
